@@ -96,8 +96,8 @@ def components(tier, disabled):
     from vf.rcfg import RCFG
 
     return {
-        "sound": {"strategy": semantic_program(profile="modelled", disabled=disabled, focus=FIELDS + ["Fee", "RekeyTo"]),
+        "sound": {"strategy": semantic_program(profile="modelled", disabled=disabled, max_stmts=(12 if q else 18), focus=FIELDS + ["Fee", "RekeyTo"]),
                   "check": check_sound, "examples": 2500 if q else 120000, "sample": lambda c, i: RCFG(c).text},
-        "exact": {"strategy": semantic_program(profile="direct", disabled=disabled, focus=FIELDS),
+        "exact": {"strategy": semantic_program(profile="direct", disabled=disabled, max_stmts=(12 if q else 18), focus=FIELDS),
                   "check": check_exact, "examples": 2500 if q else 120000, "sample": lambda c, i: RCFG(c).text},
     }
